@@ -6,3 +6,6 @@
 package state
 
 func verifTrafficInstalled(*TrafficKeyState, *TrafficGeneration, *TrafficGeneration) {}
+
+// VerifSecretDerived is a no-op without the verif build tag.
+func VerifSecretDerived(string, []byte) {}
